@@ -774,22 +774,17 @@ class C15(core.Check):
                                          "events": wd.events, "sb": rows_obs(t.scrollback_buffer)}, r)
                 if d is not None:
                     pend, x, y, top, bot, cleared = before
-                    k = c[0]
-                    if k in ("il", "dl"):
-                        fam = "IL" if k == "il" and top <= y <= bot else "IL/DL outside the scrolling region"
-                        if k == "dl" and top <= y <= bot:
-                            fam = "DL"
-                    elif k == "ed" and c[1] == 1:
-                        fam = "ED 1"
-                    elif k == "ch" and pend and w == 1:
-                        fam = "autowrap on a 1-column terminal"
-                    elif k == "ch" and pend and y > bot:
-                        fam = "autowrap below the scrolling region"
-                    elif k == "ch" and not pend and x == w - 1 and cleared is not None:
-                        fam = "printable in the last column after a cursor move cleared the pending wrap"
-                    else:
-                        fam = k
-                    return f"vt100[{fam}]: after command #{i} {c} {d}"
+                    aspect = ("scrollback" if "scrollback" in d else "replies" if d.startswith("replies") else
+                              "cursor" if d.startswith("cursor") else "region" if d.startswith("scrolling") else "screen")
+                    k = c[0] + (str(max(c[1], 0)) if c[0] in ("ed", "el") else "")
+                    ctx = []
+                    if pend:
+                        ctx.append("pending wrap")
+                    if c[0] == "ch" and cleared:
+                        ctx.append("pending wrap cleared by " + cleared)
+                    if not top <= y <= bot:
+                        ctx.append("cursor outside the scrolling region")
+                    return f"vt100[{k}/{aspect}]: after command #{i} {c}" + (" (" + ", ".join(ctx) + ")" if ctx else "") + " " + d
         finally:
             urwid.set_encoding("utf-8")
         return "vt100[?]: " + final_diff + " (no single command shows the difference)"
